@@ -24,7 +24,7 @@ LEVEL = "exploration"
 META = {
     "engine": "audit-monitor",
     "technique": "runtime monitor: interpreter audit hook (exec/compile of strings, process spawning, writing opens, file-system mutations, sockets) in server and pool workers + file-system snapshots + strace on subprocess sessions, under adversarial sources/configs",
-    "text": "Adversarial workspaces (host-language expressions, calls, imports and attribute chains in #if/#elif conditions, object- and function-like macro bodies, configuration pp_defs, include paths and file names with shell metacharacters) are indexed and queried through every route while an audit hook armed only around message handling records every exec/compile of a non-file source, process creation, writing open and file-system mutation in the server and its workers; workspace and sentinel snapshots must be unchanged and no canary may appear. Subprocess sessions are additionally watched with strace. Sampled inputs; the monitor sees every audited event of the executions produced.",
+    "text": "Adversarial workspaces (host-language expressions, calls, imports and attribute chains in #if/#elif conditions, object- and function-like macro bodies, configuration pp_defs, include paths and file names with shell metacharacters) are indexed and queried through every route while an audit hook armed only around message handling records every exec/compile of a non-file source, process creation, writing open and file-system mutation in the server and its workers; workspace and sentinel snapshots must be unchanged and no canary may appear. Subprocess sessions are additionally watched with strace. Sampled inputs; the monitor sees every audited event of the executions produced. Also: 24 condition forms around payload-bearing macros, every configuration option given path-like values, parser failures injected on edits, a fresh logging configuration per in-process server.",
     "note": "trusted: CPython audit events (C extensions doing raw I/O are invisible to them; strace covers those in subprocess sessions); allow-list: <root>/fortls_debug.log, /dev/null, __pycache__",
 }
 RULE = ("adversarial documents from ~40 payload templates (python expressions with os.system/open/eval/exec/__import__/attribute chains/lambdas/walrus/"
